@@ -98,10 +98,13 @@ Proof.
   - destruct (parse_send_long_data d) as [[[i pid] data]|e]; cbn [fst]; [|split; [exact I|lia]].
     destruct (lookup s i) as [st|] eqn:L; cbn [fst]; [|split; [exact I|lia]].
     split; [apply inv_put; [exact I|eapply inv_lookup; eauto]|cbn; lia].
-  - destruct (execute_sql qa (lookup s) ftab d) as [[[sql attrs] cur]|e]; cbn [fst]; [|split; [exact I|lia]].
-    destruct (rd_uint 4 d) as [[i r]|e]; cbn [fst]; [|split; [exact I|lia]].
-    destruct (lookup s i) as [st|] eqn:L; cbn [fst]; [|split; [exact I|lia]].
-    split; [apply inv_put; [exact I|eapply inv_lookup; eauto]|cbn; lia].
+  - destruct (execute_sql qa (lookup s) ftab d) as [[[sql attrs] cur]|e]; cbn [fst].
+    + destruct (rd_uint 4 d) as [[i r]|e]; cbn [fst]; [|split; [exact I|lia]].
+      destruct (lookup s i) as [st|] eqn:L; cbn [fst]; [|split; [exact I|lia]].
+      split; [apply inv_put; [exact I|eapply inv_lookup; eauto]|cbn; lia].
+    + destruct (target d) as [i|]; [|split; [exact I|lia]].
+      destruct (lookup s i) as [st|] eqn:L; [|split; [exact I|lia]].
+      split; [apply inv_put; [exact I|eapply inv_lookup; eauto]|cbn; lia].
   - destruct (parse_stmt_id d) as [i|e]; cbn [fst]; [|split; [exact I|lia]].
     destruct (lookup s i) as [st|] eqn:L; cbn [fst]; [|split; [exact I|lia]].
     split; [apply inv_put; [exact I|eapply inv_lookup; eauto]|cbn; lia].
@@ -135,11 +138,14 @@ Proof.
     + destruct (lookup s i) as [sti|]; cbn [fst]; [|now exists st].
       exists st. split; [unfold lookup; cbn [tbl]; rewrite assoc_put_other by congruence; exact L|now repeat split].
   - cbn [quiet] in Q.
-    destruct (execute_sql qa (lookup s) ftab d) as [[[sql attrs] cur]|e] eqn:E; cbn [fst]; [|now exists st].
-    unfold target in Q. destruct (rd_uint 4 d) as [[i r]|e]; cbn [fst]; [|now exists st].
-    apply negb_true_iff, N.eqb_neq in Q.
-    destruct (lookup s i) as [sti|]; cbn [fst]; [|now exists st].
-    exists st. split; [unfold lookup; cbn [tbl]; rewrite assoc_put_other by congruence; exact L|now repeat split].
+    destruct (execute_sql qa (lookup s) ftab d) as [[[sql attrs] cur]|e] eqn:E; cbn [fst].
+    + unfold target in Q. destruct (rd_uint 4 d) as [[i r]|e]; cbn [fst]; [|now exists st].
+      apply negb_true_iff, N.eqb_neq in Q.
+      destruct (lookup s i) as [sti|]; cbn [fst]; [|now exists st].
+      exists st. split; [unfold lookup; cbn [tbl]; rewrite assoc_put_other by congruence; exact L|now repeat split].
+    + destruct (target d) as [i|]; [|now exists st]. apply negb_true_iff, N.eqb_neq in Q.
+      destruct (lookup s i) as [sti|]; [|now exists st].
+      exists st. split; [unfold lookup; cbn [tbl fst]; rewrite assoc_put_other by congruence; exact L|now repeat split].
   - cbn [quiet] in Q. destruct (parse_stmt_id d) as [i|e] eqn:P; cbn [fst]; [|now exists st].
     rewrite (target_stmt_id _ _ P) in Q. apply negb_true_iff, N.eqb_neq in Q.
     destruct (lookup s i) as [sti|]; cbn [fst]; [|now exists st].
@@ -165,10 +171,14 @@ Proof.
 Qed.
 
 (* ---- the operations that use up a statement's long data -------------------------------------------------------------- *)
+Definition is_unknown (e : err) : bool := match e with MysqlErr c => c =? ERR_UNKNOWN_PROCEDURE | _ => false end.
+
 Definition consumes (id : N) (o : sop) (x : sout) : bool :=
   match o, x with
   | SPrepare _, RPrepared i _ => i =? id
   | SExecute d, RExec _ _ _ => match target d with Some i => i =? id | None => false end
+  (* a refused execution of a KNOWN statement uses its long data up as well *)
+  | SExecute d, RErr e => negb (is_unknown e) && match target d with Some i => i =? id | None => false end
   | SReset d, ROk => match target d with Some i => i =? id | None => false end
   | _, _ => false
   end.
@@ -179,17 +189,24 @@ Proof.
   intros I C. destruct o as [sql|d|d|d|d]; cbn [Stmts.sstep] in *.
   - destruct (count_params sql <? 65536); cbn [snd fst consumes] in *; [|discriminate].
     apply N.eqb_eq in C. subst id. eexists. split; [unfold lookup; cbn [tbl]; apply assoc_put_same|reflexivity].
-  - destruct (parse_send_long_data d) as [[[i pid] data]|e]; cbn [snd consumes] in C; [|discriminate].
-    destruct (lookup s i); cbn [snd consumes] in C; discriminate.
-  - destruct (execute_sql qa (lookup s) ftab d) as [[[sql attrs] cur]|e] eqn:E; cbn [snd fst consumes] in *; [|discriminate].
-    destruct (execute_ok_target _ _ _ _ _ _ _ E) as (i & r & st & R & L).
-    unfold target in C. rewrite R in *. rewrite L in *. cbn [snd fst consumes] in *. apply N.eqb_eq in C. subst i.
-    eexists. split; [unfold lookup; cbn [tbl]; apply assoc_put_same|reflexivity].
+  - destruct (parse_send_long_data d) as [[[i pid] data]|e]; cbn in C; [|discriminate].
+    destruct (lookup s i); cbn in C; discriminate.
+  - destruct (execute_sql qa (lookup s) ftab d) as [[[sql attrs] cur]|e] eqn:E; cbn [snd fst consumes] in *.
+    + destruct (execute_ok_target _ _ _ _ _ _ _ E) as (i & r & st & R & L).
+      unfold target in C. rewrite R in *. rewrite L in *. cbn [snd fst consumes] in *. apply N.eqb_eq in C. subst i.
+      eexists. split; [unfold lookup; cbn [tbl]; apply assoc_put_same|reflexivity].
+    + destruct (target d) as [i|] eqn:T; [|rewrite andb_false_r in C; discriminate].
+      apply andb_true_iff in C as [C1 C2]. apply N.eqb_eq in C2. subst i.
+      destruct (lookup s id) as [st|] eqn:L.
+      * eexists. split; [unfold lookup; cbn [tbl fst]; apply assoc_put_same|reflexivity].
+      * exfalso. unfold execute_sql, parse_com_stmt_execute, bind, target in *.
+        destruct (rd_uint 4 d) as [[i r]|e0]; [|discriminate]. inversion T; subst i. rewrite L in E. inversion E; subst e.
+        cbn in C1. discriminate.
   - destruct (parse_stmt_id d) as [i|e] eqn:P; cbn [snd fst consumes] in *; [|discriminate].
     destruct (lookup s i) as [st|] eqn:L; cbn [snd fst consumes] in *; [|discriminate].
     rewrite (target_stmt_id _ _ P) in C. apply N.eqb_eq in C. subst i.
     eexists. split; [unfold lookup; cbn [tbl]; apply assoc_put_same|reflexivity].
-  - destruct (parse_stmt_id d) as [i|e]; cbn [snd consumes] in C; discriminate.
+  - destruct (parse_stmt_id d) as [i|e]; cbn in C; discriminate.
 Qed.
 
 (* THE HISTORY THEOREM.  Any history of fewer than 2^32 operations on a fresh connection; somewhere in it an operation
